@@ -223,7 +223,8 @@ func (g *TreeGen) qual() SItem {
 	if g.pool == nil || len(g.pool.Paths) == 0 || g.noQualDepth > 0 {
 		return id(genName(g.r))
 	}
-	return Qual{Path: pick(g.r, g.pool.Paths), Name: pick(g.r, []string{"X", "Y", "New", "T", "Println", "K"})}
+	i := g.r.Intn(len(g.pool.Paths))
+	return Qual{Path: g.pool.Paths[i], Name: qName(i)}
 }
 
 func (g *TreeGen) lit() SItem {
@@ -461,6 +462,12 @@ func (g *TreeGen) commentText() string {
 		t = strings.ReplaceAll(t, "*/", "* /")
 		t = strings.ReplaceAll(t, "\r", "")
 		t = strings.ReplaceAll(t, "\x00", "")
+		t = strings.ToValidUTF8(t, "")
+		// gofmt itself rewrites `` and '' inside comments to curly quotes (a gofmt behaviour,
+		// outside jennifer): keep them out of the texts whose survival is checked
+		t = strings.ReplaceAll(t, "``", "` `")
+		t = strings.ReplaceAll(t, "''", "' '")
+		t = strings.ReplaceAll(t, "\ufeff", "")
 		if strings.HasPrefix(t, "//") || strings.HasPrefix(t, "/*") {
 			t = " " + t
 		}
@@ -803,11 +810,21 @@ func genFileSetup(r *Rng, f int, pool *PathPool, cfg FileCfg) []Op {
 		if !r.Chance(cfg.localPct) {
 			p = "example.org/self/" + pick(r, baseNames)
 		}
+		if p == "C" {
+			p = "example.org/self/c"
+		}
+		for _, k := range goKeywords {
+			// NewFilePath infers the package name from the path: a keyword there is the
+			// caller's mistake, not an import-naming question
+			if strings.HasSuffix(strings.TrimSuffix(p, "/"), "/"+k) || p == k {
+				p = "example.org/self/okname"
+			}
+		}
 		all = append(all, p)
 		ops = append(ops, Op{Kind: OpFile, F: f, Str: []string{"path", p, ""}})
 	default:
 		p := pick(r, pool.Paths)
-		if !r.Chance(cfg.localPct) {
+		if !r.Chance(cfg.localPct) || p == "C" {
 			p = "example.org/self"
 		}
 		ops = append(ops, Op{Kind: OpFile, F: f, Str: []string{"pathname", p, pick(r, []string{"main", "p", "foo"})}})
